@@ -1032,6 +1032,84 @@ Proof.
   rewrite nth_error_app1 by exact Hi. reflexivity.
 Qed.
 
+(* ---------------- name derivation: the transcription equals the documented scheme ---------------- *)
+Definition slash_us (s : str) : str := map (fun c => if Z.eqb c c_slash then c_us else c) s.
+
+Lemma replace_byte_single from to s :
+  replace_byte from [to] s = map (fun c => if Z.eqb c from then to else c) s.
+Proof. unfold replace_byte. induction s as [|c r IH]; simpl; [reflexivity|]. rewrite IH. destruct (c =? from); reflexivity. Qed.
+
+Lemma split_slash_nonempty s cur : split_slash s cur <> [].
+Proof. revert cur. induction s as [|c r IH]; intros cur; simpl; [congruence|]. destruct (c =? c_slash); [congruence|apply IH]. Qed.
+
+Lemma join_us_cons x l : l <> [] -> join_us (x :: l) = x ++ [c_us] ++ join_us l.
+Proof. destruct l; [congruence|reflexivity]. Qed.
+
+Lemma join_split s : forall cur, forallb (fun c => negb (Z.eqb c c_slash)) cur = true ->
+  join_us (map dash_us (split_slash s cur)) = dash_us (slash_us (rev cur ++ s)).
+Proof.
+  induction s as [|c r IH]; intros cur Hc.
+  - simpl. rewrite app_nil_r. unfold slash_us. f_equal. symmetry.
+    rewrite <- (map_id (rev cur)) at 2. apply map_ext_in. intros a Ha. apply in_rev in Ha.
+    rewrite forallb_forall in Hc. apply Hc in Ha. destruct (a =? c_slash); [discriminate|reflexivity].
+  - simpl. destruct (c =? c_slash) eqn:E.
+    + simpl map. rewrite join_us_cons.
+      2:{ intros H. apply map_eq_nil in H. revert H. apply split_slash_nonempty. }
+      rewrite (IH [] eq_refl). simpl rev. simpl app at 3.
+      unfold slash_us, dash_us. rewrite !map_app. simpl. rewrite E. simpl.
+      f_equal.
+      * f_equal. rewrite <- (map_id (rev cur)) at 1. apply map_ext_in. intros a Ha. apply in_rev in Ha.
+        rewrite forallb_forall in Hc. apply Hc in Ha. destruct (a =? c_slash); [discriminate|reflexivity].
+    + rewrite (IH (c :: cur)).
+      * simpl rev. rewrite <- app_assoc. reflexivity.
+      * simpl. rewrite E. exact Hc.
+Qed.
+
+Lemma split_last_slash_spec s dir base : split_last_slash s = Some (dir, base) ->
+  s = dir ++ c_slash :: base /\ forallb (fun c => negb (Z.eqb c c_slash)) base = true.
+Proof.
+  revert dir base. induction s as [|c r IH]; intros dir base H; [discriminate|].
+  simpl in H. destruct (split_last_slash r) as [[a b]|] eqn:E.
+  - inversion H; subst. destruct (IH a base eq_refl) as [E1 E2]. split; [rewrite E1; reflexivity|exact E2].
+  - destruct (c =? c_slash) eqn:Ec; [|discriminate]. inversion H; subst. apply Z.eqb_eq in Ec. subst c.
+    split; [reflexivity|].
+    clear H IH. induction base as [|x l IHl]; [reflexivity|]. simpl in E.
+    destruct (split_last_slash l) as [[a b]|]; [discriminate|]. destruct (x =? c_slash) eqn:Ex; [discriminate|].
+    simpl. rewrite Ex. simpl. apply IHl. reflexivity.
+Qed.
+
+Lemma unit_replace u :
+  replace_byte c_slash s_per (replace_byte c_star [c_us] (replace_byte c_dash [c_us] u))
+  = flat_map (fun c => if Z.eqb c c_slash then s_per else if Z.eqb c c_dash || Z.eqb c c_star then [c_us] else [c]) u.
+Proof.
+  rewrite !replace_byte_single. unfold replace_byte. rewrite !flat_map_concat_map, !map_map. f_equal.
+  apply map_ext. intros c.
+  destruct (c =? c_dash) eqn:E1.
+  - apply Z.eqb_eq in E1. subst c. reflexivity.
+  - destruct (c =? c_star) eqn:E2.
+    + apply Z.eqb_eq in E2. subst c. reflexivity.
+    + simpl. reflexivity.
+Qed.
+
+Lemma name_model_is_spec_lemma : forall n c k fq v,
+  runtime_metrics_to_prom n c k = Some (fq, v) -> name_spec n c k = Some fq.
+Proof.
+  intros n c k fq v H. unfold runtime_metrics_to_prom, name_spec in *.
+  destruct (split_colon n) as [key [unit|]]; [|discriminate].
+  destruct (clean_key key); [|discriminate].
+  destruct (split_last_slash (tl key)) as [[dir base]|] eqn:E; [|discriminate].
+  inversion H; subst; clear H. f_equal.
+  destruct (split_last_slash_spec _ _ _ E) as [Ek Hb].
+  rewrite join_us_cons by (intros H; apply map_eq_nil in H; revert H; apply split_slash_nonempty).
+  rewrite (join_split (tl key) [] eq_refl). simpl rev. simpl app at 2.
+  rewrite Ek. rewrite unit_replace. rewrite !replace_byte_single.
+  unfold slash_us, dash_us. rewrite !map_app. simpl map.
+  assert (Eb : map (fun c0 => if c0 =? c_slash then c_us else c0) base = base).
+  { rewrite <- (map_id base) at 2. apply map_ext_in. intros a Ha. rewrite forallb_forall in Hb.
+    apply Hb in Ha. destruct (a =? c_slash); [discriminate|reflexivity]. }
+  rewrite Eb. destruct (c && negb (k =? 3)); simpl; repeat (rewrite <- app_assoc; simpl); rewrite ?app_nil_r; reflexivity.
+Qed.
+
 (* the hypotheses are satisfiable: a runtime-like seconds histogram with -Inf first *)
 Definition ex_ib : list f64 := [ninf; of_Z 0; of_ZE 1 (-10); of_ZE 1 (-9); of_ZE 1 (-3); of_ZE 1 (-1); of_Z 1; of_Z 5; of_Z 50; pinf].
 Definition ex_ups : list (list Z * f64) := [([1; 2; 3; 4; 5; 6; 7; 8; 9], pzero); ([1; 2; 3; 4; 5; 6; 7; 8; 2 ^ 64 - 1], pzero)].
